@@ -4,7 +4,10 @@ package lab
 
 import (
 	"fmt"
+	"os"
+	"path/filepath"
 	"runtime"
+	"runtime/pprof"
 	"sync"
 	"sync/atomic"
 	"time"
@@ -99,4 +102,25 @@ func (p *lagProbe) starved() string {
 func (p *lagProbe) stop() {
 	close(p.done)
 	p.wg.Wait()
+}
+
+var dumpSeq atomic.Int64
+
+// dumpGoroutines writes the stacks of all goroutines to $VERIF_WORK/diag/ (at most 5 per process): what a bounded-
+// liveness failure looked like from inside, for the person who has to tell a stall in the proxy from one in the harness.
+func dumpGoroutines(tag string) {
+	n := dumpSeq.Add(1)
+	if n > 5 {
+		return
+	}
+	dir := filepath.Join(os.Getenv("VERIF_WORK"), "diag")
+	if os.MkdirAll(dir, 0o755) != nil {
+		return
+	}
+	f, err := os.Create(filepath.Join(dir, fmt.Sprintf("%s-%d-%d.txt", tag, os.Getpid(), n)))
+	if err != nil {
+		return
+	}
+	defer f.Close()
+	pprof.Lookup("goroutine").WriteTo(f, 2)
 }
